@@ -3,11 +3,13 @@ CONSTANTS
   Mods = {"e", "a", "b"}
   Entry = "e"
   Decls = {"d1"}
-  AliasIds = {"i1"}
+  AliasIds = {"i1", "i2"}
   Names = {"n1"}
   MaxRefs = 2
   Emit = TRUE
-  ModRefs = TRUE
+  AliasMods = {"e"}
+  NsAlias = TRUE
+  ModRefs = FALSE
 INVARIANT Agree
 INVARIANT Closed
 INVARIANT TracedAgree
